@@ -124,10 +124,21 @@ class DataFrame(Entity, DataSet):
         if name is None:
             name = self._find_name_by_idx(index)
         column = np.array(column)
-        for i, rows in enumerate(self._h5group.group['data'][:]):
+        stored = self._h5group.group['data'][:]
+        # convert every cell before the first row is written and put the
+        # rows back if storing fails half-way, so that a column with a cell
+        # the column type refuses leaves the table unchanged
+        changed = stored.copy()
+        for i, rows in enumerate(changed):
             cell = column[i]
             rows[name] = cell
-            self.write_rows(rows=[rows], index=[i])
+        try:
+            for i, rows in enumerate(changed):
+                self.write_rows(rows=[rows], index=[i])
+        except Exception:
+            if len(stored) > 0:
+                self._write_data(stored)
+            raise
 
     def read_columns(self, index=None, name=None, slc=None, group_by_cols=False):
         """
